@@ -311,7 +311,12 @@ def SimFilterClass():
 
                     return None
 
-                if (period := spec.get('period', 0)):
+                period = spec.get('period', 0)
+
+                if (pa := spec.get('period_after')) is not None and self.nsent >= pa[0]:     # (from seq, new period): a source that changes speed
+                    period = pa[1]
+
+                if period:
                     w.sleep(period / 1000)
 
                 seq = self.nsent
